@@ -98,7 +98,7 @@ def run_case(case) -> tuple[str, str] | None:
     got = [T.norm_st(s) for s in jspec.statements(per)]
     if api == "rdflib" and cls == "graph":
         # this rdflib path regroups the quads into a Dataset: rdflib's order, not pyjelly's
-        got, expect = sorted(set(got)), sorted(set(expect))
+        got, expect = sorted(set(got), key=repr), sorted(set(expect), key=repr)
     if got != expect:
         bad = next((i for i, (a, b) in enumerate(zip(got, expect)) if a != b), len(got))
         return "corrupted", (f"wrote a stream that decodes to different data (statement {bad}): "
